@@ -836,6 +836,12 @@ namespace adept {
 	  //	  total.set_value(f.first_value());
 	  total = f.first_value();
 
+	  // The statements that finalize each strip reserve space for
+	  // themselves but also use up the space reserved above, so
+	  // ensure that the elements of this strip still fit
+	  ADEPT_ACTIVE_STACK->check_space((E::n_active + Func::extra_element_cost)
+					  * dims[reduce_dim]);
+
 	  // Innermost loop. Note that indexing of total with inew is
 	  // not very efficient for high-rank arrays since the
 	  // location must be computed from all dimensions each time.
